@@ -464,30 +464,36 @@ def roundConn (cfg : Cfg) (shutdown resumeScan : Bool) (a : Option IoAct) (x : C
     | none => (x, false)
   (cleanupOne x, r)
 
+/-- `new_connection_close_`: externally added connection not yet processed by the daemon -/
+def stopNew (x : Conn) : Conn :=
+  { (if x.sockOpen then { x.emit .sockClose with sockOpen := false } else x) with loc := .freed }
+
+/-- the forced `resume_suspended_connections` calls of the shutdown path -/
+def resumeIf (cfg : Cfg) (x : Conn) : Conn := if cfg.allowUpgrade then resumeOne x else x
+
+/-- traversal of the suspended list in `close_all_connections`: only upgraded connections
+    may be there (else MHD_PANIC); they are marked closed and resuming -/
+def stopMarkSuspended (cfg : Cfg) (x : Conn) : Conn :=
+  if x.loc = .suspended then
+    (if cfg.allowUpgrade then
+      match x.urh with
+      | none => x.emit (.fault "stop-with-suspended-connection")
+      | some u => { x with urh := some { u with wasClosed := true }, resuming := true }
+     else x.emit (.fault "stop-with-suspended-connection"))
+  else x
+
+/-- `shutdown (pos->socket_fd, SHUT_RDWR)` for every member of the connections list -/
+def stopShutdownActive (x : Conn) : Conn := if x.loc = .active then x.emit .ioShutdown else x
+
+/-- `close_connection` for every member of the connections list -/
+def stopCloseActive (x : Conn) : Conn :=
+  if x.loc = .active then closeConn x Mhd.Gen.Upg.termShutdown else x
+
 /-- `close_all_connections` as seen by one connection (daemon->shutdown already set) -/
 def stopConn (cfg : Cfg) (x : Conn) : Conn :=
-  let x := x.emit .stopMark
-  -- externally added connections not yet processed: new_connection_close_
-  if x.loc = .new then
-    { (if x.sockOpen then { x.emit .sockClose with sockOpen := false } else x) with loc := .freed }
-  else
-  -- forced resume check
-  let x := if cfg.allowUpgrade then resumeOne x else x
-  -- suspended connections: must be upgraded ones; mark closed and resuming
-  let x := if x.loc = .suspended then
-      (if cfg.allowUpgrade then
-        match x.urh with
-        | none => x.emit (.fault "stop-with-suspended-connection")
-        | some u => { x with urh := some { u with wasClosed := true }, resuming := true }
-       else x.emit (.fault "stop-with-suspended-connection"))
-    else x
-  -- shutdown() of every socket still in the connections list
-  let x := if x.loc = .active then x.emit .ioShutdown else x
-  -- second forced resume: upgraded connections go to the cleanup list
-  let x := if cfg.allowUpgrade then resumeOne x else x
-  -- close_connection for what is left in the connections list
-  let x := if x.loc = .active then closeConn x Mhd.Gen.Upg.termShutdown else x
-  cleanupOne x
+  if x.loc = .new then stopNew (x.emit .stopMark)
+  else cleanupOne (stopCloseActive (resumeIf cfg (stopShutdownActive
+        (stopMarkSuspended cfg (resumeIf cfg (x.emit .stopMark))))))
 
 /-! ### client and application actions on one connection -/
 
